@@ -128,7 +128,8 @@ class Ctx:
         # change-aware effort: when the code under taskiq/ is not the code the models were last validated against,
         # the quick tier explores BOOST times as many cases (never an alarm by itself)
         self.changed = changed_sources()
-        self.boost = int(os.environ.get("VERIF_BOOST", "4")) if self.changed else 1
+        self.boost = int(os.environ.get("VERIF_BOOST", "3")) if self.changed else 1
+        self.in_search = False
         self.rng = random.Random("%s/%d" % (pid, seed))
         self.dir = os.path.join(BUILD, pid if REPO == "/repo" else "%s-%s" % (pid, chash_s(REPO)))
         shutil.rmtree(self.dir, ignore_errors=True)
@@ -139,11 +140,14 @@ class Ctx:
     def n(self, quick, thorough):
         if not self.quick:
             return thorough
-        if self.boost <= 1 or quick >= 20000:      # extra-search budgets are large already: not multiplied again
-            return quick
-        return max(quick, min(quick * self.boost, 20000, max(quick, thorough)))
+        if self.boost <= 1 or self.in_search or not isinstance(quick, int) or not isinstance(thorough, int) \
+                or isinstance(quick, bool) or quick >= 20000 or thorough <= quick:
+            return quick        # extra-search budgets and non-count parameters are never multiplied
+        return max(quick, min(quick * self.boost, 20000, thorough))
 
     def sub_rng(self, tag):
+        if str(tag).startswith("search"):
+            self.in_search = True
         return random.Random("%s/%d/%s" % (self.pid, self.seed, tag))
 
 
